@@ -198,35 +198,47 @@ def harness_build(pkgs=("atomh", "simh")):
 # ------------------------------------------------------------------ runners
 
 def run_lines(binary, args, lines, timeout=900, shards=None):
-    """Feeds case lines to a line-oriented runner; returns one output line per case."""
+    """Feeds case lines to a line-oriented runner; returns one output line per case.  If the runner
+    dies (crash, abort, watchdog) the case it was working on is reported as CRASH and the runner is
+    restarted on the remaining cases."""
     if not lines:
         return []
     shards = shards or min(NPROC, max(1, len(lines) // 200))
-    chunks = [lines[i::shards] for i in range(shards)]
-    procs = []
-    for ch in chunks:
-        p = subprocess.Popen([binary] + list(args), stdin=subprocess.PIPE, stdout=subprocess.PIPE,
-                             stderr=subprocess.DEVNULL, text=True)
-        procs.append((p, ch))
-    outs = []
+    res = [None] * len(lines)
     import threading
-    results = [None] * len(procs)
-    def work(i, p, ch):
-        try:
-            o, _ = p.communicate("\n".join(ch) + "\n", timeout=timeout)
-            results[i] = o.split("\n")
-        except subprocess.TimeoutExpired:
-            p.kill()
-            results[i] = []
-    ths = [threading.Thread(target=work, args=(i, p, ch)) for i, (p, ch) in enumerate(procs)]
+    def work(idx):
+        todo = list(idx)
+        restarts = 0
+        while todo:
+            p = subprocess.Popen([binary] + list(args), stdin=subprocess.PIPE, stdout=subprocess.PIPE,
+                                 stderr=subprocess.DEVNULL, text=True)
+            try:
+                o, _ = p.communicate("\n".join(lines[i] for i in todo) + "\n", timeout=timeout)
+            except subprocess.TimeoutExpired:
+                p.kill()
+                try:
+                    o, _ = p.communicate(timeout=5)
+                except Exception:
+                    o = ""
+            outs = o.split("\n")
+            if outs and outs[-1] == "":
+                outs = outs[:-1]
+            for i, x in zip(todo, outs):
+                res[i] = x
+            done = len(outs)
+            if done >= len(todo):
+                break
+            res[todo[done]] = "CRASH"
+            todo = todo[done + 1:]
+            restarts += 1
+            if restarts > 200:
+                for i in todo:
+                    res[i] = "NO-OUTPUT"
+                break
+    ths = [threading.Thread(target=work, args=(list(range(s0, len(lines), shards)),)) for s0 in range(shards)]
     for t in ths: t.start()
     for t in ths: t.join()
-    res = [None] * len(lines)
-    for s, (p, ch) in enumerate(procs):
-        o = results[s]
-        for j in range(len(ch)):
-            res[s + j * shards] = o[j] if j < len(o) else "NO-OUTPUT"
-    return res
+    return [r if r is not None else "NO-OUTPUT" for r in res]
 
 
 def run_model(lines, **kw):
